@@ -271,6 +271,58 @@ def run_compound(rng):
     return None
 
 
+def run_nested_elem(rng):
+    """every elementary module inside the wrappers that run their own search loop (DualVigilanceART, a FusionART
+    channel, TopoART where the module has a beta): training is total and every activation / match value of the wrapped
+    module on its stored weights stays finite"""
+    import artlib
+    kind = rng.choice(K.KINDS)
+    d = rng.choice([1, 2, 3]) if kind in ("Bayes", "Quad") else rng.choice([1, 2, 3])
+    p = K.gen_params(rng, kind, d)
+    if kind in ("Fuzzy", "Hyper", "Ellip") and p["rho"] == 0.0:
+        p["rho"] = 0.3
+    if kind == "ART1" and p["rho"] == 0.0:
+        p["rho"] = 0.5
+    X = K.gen_data(rng, kind, rng.randrange(4, 14), d)
+    wrap = rng.choice(["DV", "Fusion", "Topo" if "beta" in p and kind != "ART2A" else "DV"])
+    rep = {"kind": kind, "wrapper": wrap, "params": {k: (np.asarray(v).tolist() if isinstance(v, np.ndarray) else v) for k, v in p.items()}, "X": X.tolist()}
+    try:
+        base = K.make(kind, p)
+        with contextlib.redirect_stdout(io.StringIO()):
+            if wrap == "DV":
+                lb = 0.0 if kind == "Bayes" else float(p["rho"]) * 0.5
+                if kind == "Bayes":
+                    return None          # DualVigilanceART requires base rho > lower bound >= 0 with the NON-inverted reading
+                est = artlib.DualVigilanceART(base, rho_lower_bound=lb)
+                Xin = X
+            elif wrap == "Topo":
+                est = artlib.TopoART(base, beta_lower=float(p["beta"]) * 0.5, tau=50, phi=1)
+                Xin = X
+            else:
+                raw = np.array([[rng.random()] for _ in range(len(X))])
+                est = artlib.FusionART([base, artlib.FuzzyART(0.3, 1e-3, 1.0)], [0.5, 0.5], [X.shape[1], 2])
+                Xin = np.hstack([X, raw, 1.0 - raw])
+    except AssertionError:
+        return None
+    try:
+        with np.errstate(all="ignore"), contextlib.redirect_stdout(io.StringIO()), C.time_limit(10):
+            h = max(1, len(Xin) // 2)
+            est.fit(Xin[:h])
+            est.partial_fit(Xin[h:] if len(Xin) > h else Xin[:1])
+            est.predict(Xin)
+            for x in X[:4]:
+                for w in list(base.W)[:5]:
+                    T, cache = base.category_choice(x, w, params=base.params)
+                    M, _ = base.match_criterion(x, w, params=base.params, cache=cache)
+                    if not (np.isfinite(T) and np.isfinite(M)):
+                        return {"signature": f"{wrap}({kind})/nonfinite", "text": f"{kind} inside {wrap}: non-finite activation / match value (T={T}, M={M}) on a stored weight", "replay": rep}
+            if not all(np.all(np.isfinite(np.asarray(w, dtype=float))) for w in base.W):
+                return {"signature": f"{wrap}({kind})/nonfinite", "text": f"{kind} inside {wrap}: non-finite weight", "replay": rep}
+    except Exception as e:
+        return {"signature": f"{wrap}({kind})/exception", "text": f"{kind} inside {wrap}: {type(e).__name__}: {str(e)[:100]}", "replay": rep}
+    return None
+
+
 def run_topo_empty(rng):
     """TopoART histories whose last pruning round removes every category (legal: tau = n, nothing reaches phi),
     then predict / fit again / predict: all must be total (predict labels -1 while nothing survives)"""
@@ -317,6 +369,12 @@ def main():
         f = run_compound(rng)
         if f:
             fails.append(f)
+    rng_n = C.make_rng(seed, "C04-nested")
+    n_nested = 250 if tier == "quick" else 2500
+    for _ in range(n_nested):
+        f = run_nested_elem(rng_n)
+        if f:
+            fails.append(f)
     n_empty = 0
     for _ in range(40 if tier == "quick" else 400):
         f, was_empty = run_topo_empty(rng)
@@ -351,7 +409,7 @@ def main():
         "rule": "legal extremes for all eight modules (rho in {0,1}, alpha in {0,1e-10}, beta in {0,1}, tiny r_hat/mu, huge L; quantised grids, duplicated and constant data), "
                 "bare / two partial_fit batches / SimpleARTMAP A-side, all modes; plus compound-estimator histories; non-trivial = distinct configuration+data",
         "traces_validated_against_impl": sum(1 for x in codes if x == 0),
-        "distribution": {"kinds": kinds, "compound": nc, "topoart_histories_ending_with_no_category": n_empty, "boundary_hyper_parameter_cases": n_bound}, "samples": reps[:1]})
+        "distribution": {"kinds": kinds, "compound": nc, "topoart_histories_ending_with_no_category": n_empty, "boundary_hyper_parameter_cases": n_bound, "elementary_modules_inside_wrappers": n_nested}, "samples": reps[:1]})
     v.assumptions = ["overflow / underflow / cancellation-induced sqrt of a tiny negative are binary64 phenomena the exact model cannot exhibit (watched on the implementation only)",
                      "third-party routines (np.linalg, sklearn validation) are exercised, not modelled beyond Mat.v"]
     sys.exit(v.finish())
